@@ -75,9 +75,7 @@ KEYS_OK = "len(KEY) == {K} and len(EV) == {K} and all(key_index(L, b) >= {K} or 
 contract(
     MG + "peewee_v2_to_sqlite_v1",
     params={"datastore": "SqliteStorage"},
-    requires=["lazy_inv(datastore)",
-              # a fresh store: nothing in it yet (check_for_migration runs when the database file has just been created)
-              "all(not bk_live(datastore, r) for r in bucket_rowids(datastore))"],
+    requires=["lazy_inv(datastore)"],
     ghost_vars={"L": ("Dict[str,Dict[str,JV]]", "{}"), "R": ("IntMap", "mnew()"), "EV": ("List[List[Event]]", "[]"),
                 "KEY": ("List[str]", "[]"), "BASE": ("IntMap", "mnew()"), "FP": ("IntMap2", "mnew2()")},
     # (witnesses: KEY[k] = id of the k-th bucket of the listing, R[k] = its row, EV[k] = its legacy events, BASE[k] = last event row id before they were inserted,
@@ -92,12 +90,13 @@ contract(
         # every legacy event of every legacy bucket has a row of its own in that bucket of the new store, holding its encoding
         KEYS_OK.format(K="len(L)"),
         MIGRATED_EVENTS.format(K="len(L)"),
-        "lazy_inv(datastore)",
+        "lazy_inv(datastore)", "datastore.enable_lazy_commit == old(datastore.enable_lazy_commit)",
     ],
+    internal_ensures=[0, 1, 2],        # (stated over the function's own ghost witnesses: not visible to callers)
     modifies=["datastore.last_commit", "datastore.num_uncommitted_statements", "datastore.conn.*", "alloc", "Event.id"],
     writes_fresh=["*"], raises=["IntegrityError"],
     loops={0: dict(index="k", invariant=[
-        "lazy_inv(datastore)", "buckets is L and allocated(L)", "listing_ok(L)",
+        "lazy_inv(datastore)", "datastore.enable_lazy_commit == old(datastore.enable_lazy_commit)", "buckets is L and allocated(L)", "listing_ok(L)",
         "all(key_index(L, b) >= k or migrated_meta(datastore, R[key_index(L, b)], b, L[b]) for b in L)",
         KEYS_OK.format(K="k"), "all(allocated(EV[q]) for q in range(k)) and allocated(EV) and allocated(KEY)",
         MIGRATED_EVENTS.format(K="k"),
@@ -113,4 +112,24 @@ contract(
     ]), 1: dict(index="m", invariant=[
         "all(bucket_events[j].id is None for j in range(m))",
     ])},
+)
+
+
+# -- the constructor of the sqlite store and the migration hook it runs --------------------------------------------------------------
+contract(
+    "aw_core.dirs.get_data_dir", params={"module_name": "Optional[str]"}, returns="str", requires=[], ensures=[], modifies=[], raises=[],
+    trusted=True, note="platformdirs / os.makedirs: the file system is outside the verifier's reach",
+)
+contract(
+    MG + "detect_db_files",
+    params={"data_dir": "str", "datastore_name": "Optional[str]", "version": "Optional[int]"}, returns="List[str]",
+    requires=[], ensures=["fresh(result)"], modifies=["alloc"], writes_fresh=["List.len", "List.items"], raises=[], trusted=True,
+    note="os.listdir and file-name matching: the file system is outside the verifier's reach",
+)
+contract(
+    MG + "check_for_migration",
+    params={"datastore": "SqliteStorage"},
+    requires=["lazy_inv(datastore)"], ensures=["lazy_inv(datastore)", "datastore.enable_lazy_commit == old(datastore.enable_lazy_commit)"],
+    modifies=["datastore.last_commit", "datastore.num_uncommitted_statements", "datastore.conn.*", "alloc", "Event.id"],
+    writes_fresh=["*"], raises=["IntegrityError"],
 )
